@@ -95,6 +95,7 @@ func pairsOf(res gedcom.IndividualComparisons, li, ri map[*gedcom.IndividualNode
 
 type info struct {
 	twoSided  int
+	nested    int
 	ties      bool
 	dupIDs    bool
 	nontriv   bool
@@ -228,9 +229,29 @@ func check(c matchCase) (fl *harness.Failure, inf info) {
 	}
 	for _, jobs := range c.Jobs {
 		for rep := 0; rep < reps; rep++ {
-			res := left.Compare(right, options(c, jobs))
+			o := options(c, jobs)
+			res := left.Compare(right, o)
 			if f := validate(c, jobs, left, right, res); f != nil {
 				return f, inf
+			}
+			// the comparisons that 'gedcom diff' makes next, with the options value of the
+			// comparison above (html/individual_compare.go): the spouses and the parents of
+			// every matched pair. They are matchings too.
+			for _, r := range res {
+				if r.Left == nil || r.Right == nil {
+					continue
+				}
+				for k, pair := range [][2]gedcom.IndividualNodes{{uniq(r.Left.Spouses()), uniq(r.Right.Spouses())}, {parentsOf(r.Left), parentsOf(r.Right)}} {
+					if len(pair[0])+len(pair[1]) == 0 {
+						continue
+					}
+					inf.nested++
+					if f := validate(c, jobs, pair[0], pair[1], pair[0].Compare(pair[1], o)); f != nil {
+						f.Sig = []string{"spouses-of-a-pair:", "parents-of-a-pair:"}[k] + f.Sig
+						f.Msg = fmt.Sprintf("comparing the %s of the matched pair %s / %s with the options of the comparison that matched them: %s", []string{"spouses", "parents"}[k], r.Left.Pointer(), r.Right.Pointer(), f.Msg)
+						return f, inf
+					}
+				}
 			}
 			ps := pairsOf(res, li, ri)
 			for _, p := range ps {
@@ -254,6 +275,30 @@ func check(c matchCase) (fl *harness.Failure, inf info) {
 }
 
 func roundTo(x float64) float64 { return x }
+
+// uniq drops nil and repeated individuals (somebody married twice to the same person).
+func uniq(in gedcom.IndividualNodes) (out gedcom.IndividualNodes) {
+	seen := map[*gedcom.IndividualNode]bool{}
+	for _, i := range in {
+		if i != nil && !seen[i] {
+			seen[i] = true
+			out = append(out, i)
+		}
+	}
+	return out
+}
+
+func parentsOf(i *gedcom.IndividualNode) (out gedcom.IndividualNodes) {
+	for _, f := range i.Parents() {
+		if h := f.Husband(); h != nil {
+			out = append(out, h.Individual())
+		}
+		if w := f.Wife(); w != nil {
+			out = append(out, w.Individual())
+		}
+	}
+	return uniq(out)
+}
 
 func genCase(rt *rapid.T) matchCase {
 	base := rapid.SampledFrom([]int{1850, 1900}).Draw(rt, "base")
@@ -317,7 +362,7 @@ func genCase(rt *rapid.T) matchCase {
 
 func TestCheckMatching(t *testing.T) {
 	s := harness.NewSub("matching-validity-and-differential",
-		"pairs of individual lists from random family graphs (<= 6 people each; right side: disjoint pointers, same pointers, or an edited copy - renamed people, dropped identifiers, renumbered pointers, an identical twin), unique identifiers from a small pool (shared, duplicated, malformed) x MinimumWeightedSimilarity and PreferPointerAbove from {0,0.5,default,0.9,1} x Jobs {0,1,2,3,8,16}: every individual exactly once per side, no empty result, every pair justified (full weighted similarity >= threshold, shared identifier, or trusted pointer), and - when no two candidate pairs tie and identifiers/pointers are not duplicated - the same pairs as the sequential run; non-trivial = both sides >= 2 people and a two-sided result")
+		"pairs of individual lists from random family graphs (<= 6 people each; right side: disjoint pointers, same pointers, or an edited copy - renamed people, dropped identifiers, renumbered pointers, an identical twin), unique identifiers from a small pool (shared, duplicated, malformed) x MinimumWeightedSimilarity and PreferPointerAbove from {0,0.5,default,0.9,1} x Jobs {0,1,2,3,8,16}: every individual exactly once per side, no empty result, every pair justified (full weighted similarity >= threshold, shared identifier, or trusted pointer), and - when no two candidate pairs tie and identifiers/pointers are not duplicated - the same pairs as the sequential run; after every comparison the spouses and the parents of every matched pair are compared with the SAME options value, as html/individual_compare.go does for 'gedcom diff', and those results are valid matchings too; non-trivial = both sides >= 2 people and a two-sided result")
 	s.Rapid(t, harness.Share(harness.Pick(2500, 60000)), 110, func(rt *rapid.T) {
 		c := genCase(rt)
 		c.Jobs = []int{0, 1, 2, 3, 8, 16}
@@ -340,6 +385,9 @@ func TestCheckMatching(t *testing.T) {
 		}
 		if inf.twoSided > 0 {
 			cls = append(cls, "two-sided-result")
+		}
+		if inf.nested > 0 {
+			cls = append(cls, "nested-comparison-of-spouses-or-parents")
 		}
 		cls = append(cls, fmt.Sprintf("gomaxprocs=%d", gmp))
 		s.Eval(harness.JSON(c), inf.nontriv, cls...)
